@@ -1,0 +1,303 @@
+//go:build verif
+
+// Contracts for the deductive verifier under /verif (comment-only; never compiled into oxy).
+package buffer
+
+// ---- C07: the retry expression -------------------------------------------------------------------------------------------
+// bpval / bival / bsval name the value a predicate / mapper closure yields for an evaluation context (functional determinism:
+// the closures read nothing but the context). Every operator closure is proved to compute the standard operator over the
+// values of its arguments, every leaf mapper to return the context field it is named after.
+
+//@ type context
+//@   immutable r attempt responseCode
+
+//@ spec bpval(f int, c *context) bool
+//@ spec bival(f int, c *context) int
+//@ spec bsval(f int, c *context) string
+
+//@ functype buffer.hpredicate
+//@   params c
+//@   modifies nothing
+//@   ensures deterministic: result == bpval(self, c)
+//@ functype buffer.toInt
+//@   params c
+//@   modifies nothing
+//@   ensures deterministic: result == bival(self, c)
+//@ functype buffer.toString
+//@   params c
+//@   modifies nothing
+//@   ensures deterministic: result == bsval(self, c)
+
+//@ stablekeys elems(hpredicate)
+
+//@ func parseExpression
+//@   props C07
+//@   modifies external
+//@   wiring Operators.AND=and Operators.OR=or Operators.EQ=eq Operators.NEQ=neq Operators.LT=lt Operators.LE=le Operators.GT=gt Operators.GE=ge
+//@   wiring ["RequestMethod"]=requestMethod ["IsNetworkError"]=isNetworkError ["Attempts"]=attempts ["ResponseCode"]=responseCode
+
+//@ func attempts$1
+//@   props C07
+//@   requires c != nil
+//@   modifies nothing
+//@   ensures attempt_count: result == c.attempt
+//@ func responseCode$1
+//@   props C07
+//@   requires c != nil
+//@   modifies nothing
+//@   ensures response_code: result == c.responseCode
+//@ func requestMethod$1
+//@   props C07
+//@   requires c != nil && c.r != nil
+//@   modifies nothing
+//@   ensures request_method: result == c.r.Method
+//@ func isNetworkError$1
+//@   props C07
+//@   requires c != nil
+//@   modifies nothing
+//@   ensures gateway_errors: result <==> (c.responseCode == 502 || c.responseCode == 504)
+
+//@ func and$1
+//@   props C07
+//@   modifies nothing
+//@   ensures conjunction: result <==> (forall j int :: 0 <= j && j < len(fns) ==> bpval(fns[j], c))
+//@   loop 1 invariant -1 <= rangeindex && rangeindex < len(fns) && (forall j int :: 0 <= j && j <= rangeindex ==> bpval(fns[j], c))
+//@ func or$1
+//@   props C07
+//@   modifies nothing
+//@   ensures disjunction: result <==> (exists j int :: 0 <= j && j < len(fns) && bpval(fns[j], c))
+//@   loop 1 invariant -1 <= rangeindex && rangeindex < len(fns) && (forall j int :: 0 <= j && j <= rangeindex ==> !bpval(fns[j], c))
+//@ func not$1
+//@   props C07
+//@   modifies nothing
+//@   ensures negation: result <==> !bpval(p, c)
+//@ func le$1
+//@   props C07
+//@   modifies nothing
+//@   ensures less_or_equal: result <==> (bpval(l, c) || bpval(e, c))
+//@ func ge$1
+//@   props C07
+//@   modifies nothing
+//@   ensures greater_or_equal: result <==> (bpval(g, c) || bpval(e, c))
+//@ func intEQ$1
+//@   props C07
+//@   modifies nothing
+//@   ensures compares: result <==> bival(m, c) == value
+//@ func intLT$1
+//@   props C07
+//@   modifies nothing
+//@   ensures compares: result <==> bival(m, c) < value
+//@ func intGT$1
+//@   props C07
+//@   modifies nothing
+//@   ensures compares: result <==> bival(m, c) > value
+//@ func stringEQ$1
+//@   props C07
+//@   modifies nothing
+//@   ensures compares: result <==> bsval(m, c) == value
+
+//@ func eq
+//@   props C07
+//@   modifies external
+//@   ensures dispatch: (istype(m, "toInt") ==> calls(intEQ) == 1) && (istype(m, "toString") ==> calls(stringEQ) == 1) && (!istype(m, "toInt") && !istype(m, "toString") ==> result1 != nil)
+//@ func lt
+//@   props C07
+//@   modifies external
+//@   ensures dispatch: (istype(m, "toInt") ==> calls(intLT) == 1) && (!istype(m, "toInt") ==> result1 != nil)
+//@ func gt
+//@   props C07
+//@   modifies external
+//@   ensures dispatch: (istype(m, "toInt") ==> calls(intGT) == 1) && (!istype(m, "toInt") ==> result1 != nil)
+//@ func neq
+//@   props C07
+//@   modifies external
+//@   ensures negated_equality: result1 == nil ==> calls(eq) == 1 && calls(not) == 1 && callarg(not, 0, 0) == callres(eq, 0, 0)
+//@ func le
+//@   props C07
+//@   modifies external
+//@   ensures built_from_lt_and_eq: result1 == nil ==> calls(lt) == 1 && calls(eq) == 1 && callarg(lt, 0, 0) == m && callarg(eq, 0, 0) == m && callarg(lt, 0, 1) == value && callarg(eq, 0, 1) == value
+//@ func ge
+//@   props C07
+//@   modifies external
+//@   ensures built_from_gt_and_eq: result1 == nil ==> calls(gt) == 1 && calls(eq) == 1 && callarg(gt, 0, 0) == m && callarg(eq, 0, 0) == m && callarg(gt, 0, 1) == value && callarg(eq, 0, 1) == value
+
+// ---- multibuf (github.com/mailgun/multibuf v0.1.2, outside oxy): assumed contracts over ghost state --------------------------
+// WriterOnce:  wrote   a Write has been accepted (state beyond "init": Reader() has data to hand over)
+//              taken   Reader() has handed the data over
+//              spilled a temporary file exists on disk and still belongs to the writer (initFile ran, Reader() not yet)
+// MultiReader: owns    closing this reader removes a temporary file (it was obtained from a spilled writer)
+//              pos     read offset (0 = the next Read returns the first byte)
+// The ghost state is not thread-local: the wrapped handler reaches the writer through bufferWriter's methods.
+//@ type github.com/mailgun/multibuf.WriterOnce
+//@   ghost wrote bool
+//@   ghost taken bool
+//@   ghost spilled bool
+//@ type github.com/mailgun/multibuf.MultiReader
+//@   ghost owns bool
+//@   ghost pos int
+
+//@ extern github.com/mailgun/multibuf.MaxBytes
+//@   params m
+//@   modifies nothing
+//@   nopanic
+//@ extern github.com/mailgun/multibuf.MemBytes
+//@   params m
+//@   modifies nothing
+//@   nopanic
+
+//@ extern github.com/mailgun/multibuf.NewWriterOnce
+//@   params setters
+//@   modifies nothing
+//@   ensures result1 == nil ==> result0 != nil && fresh(result0) && !result0.wrote && !result0.taken && !result0.spilled
+//@   ensures result1 != nil ==> result0 == nil
+
+// New reads the whole input (the server's body reader): assumed not to touch the request's fields or oxy's state.
+//@ extern github.com/mailgun/multibuf.New
+//@   params input setters
+//@   modifies nothing
+//@   ensures result1 == nil ==> result0 != nil && fresh(result0) && result0.pos == 0
+
+//@ iface github.com/mailgun/multibuf.WriterOnce.Write
+//@   params self p
+//@   modifies self.wrote, self.spilled
+//@   ensures accepted_or_error: (result1 == nil ==> self.wrote && result0 == len(p)) && (old(self.wrote) ==> self.wrote)
+//@   ensures spill_is_kept_until_read: old(self.spilled) ==> self.spilled
+//@   ensures no_spill_after_reader: old(self.taken) ==> !self.spilled && result1 != nil
+
+//@ iface github.com/mailgun/multibuf.WriterOnce.Reader
+//@   params self
+//@   requires has_data: self.wrote
+//@   modifies self.taken, self.spilled
+//@   ensures handed_over: result1 == nil ==> result0 != nil && fresh(result0) && self.taken && result0.owns == old(self.spilled) && result0.pos == 0
+//@   ensures fails_only_when_taken: result1 != nil ==> old(self.taken) && result0 == nil
+//@   ensures file_leaves_the_writer: !self.spilled
+
+//@ iface github.com/mailgun/multibuf.WriterOnce.Close
+//@   params self
+//@   modifies nothing
+
+//@ iface github.com/mailgun/multibuf.MultiReader.Close
+//@   params self
+//@   modifies self.owns
+//@   ensures file_removed: !self.owns
+
+//@ iface github.com/mailgun/multibuf.MultiReader.Size
+//@   params self
+//@   modifies nothing
+
+//@ iface github.com/mailgun/multibuf.MultiReader.Seek
+//@   params self offset whence
+//@   modifies self.pos
+//@   ensures rewound: result1 == nil && offset == 0 && whence == 0 ==> self.pos == 0
+
+// ---- the capture writer handed to the wrapped handler ------------------------------------------------------------------------
+//@ type bufferWriter
+//@   immutable header buffer responseWriter log
+
+//@ func (*bufferWriter).Header
+//@   props C07 C20
+//@   modifies nothing
+//@   ensures result == b.header
+//@ func (*bufferWriter).WriteHeader
+//@   props C07 C20
+//@   modifies b.code
+//@   ensures status_captured: b.code == code
+//@ func (*bufferWriter).Write
+//@   props C07 C15 C20
+//@   requires b != nil && b.buffer != nil
+//@   modifies b.writeError, b.buffer.wrote, b.buffer.spilled
+//@   ensures never_fails_the_handler: result1 == nil
+//@   ensures captured_once: calls(b.buffer.Write) == 1 && callarg(b.buffer.Write, 0, 0) == buf
+//@   ensures over_limit_remembered: callres(b.buffer.Write, 0, 1) != nil ==> b.writeError == callres(b.buffer.Write, 0, 1) && result0 == len(buf)
+//@   ensures accepted: callres(b.buffer.Write, 0, 1) == nil ==> b.writeError == old(b.writeError) && result0 == callres(b.buffer.Write, 0, 0)
+//@ func (*bufferWriter).Hijack
+//@   props C20
+//@   requires b != nil
+//@   modifies external, b.hijacked
+//@   ensures hijack_forwarded_when_supported: implements(b.responseWriter, "net/http.Hijacker") ==> calls(Hijack) == 1 && result0 == callres(Hijack, 0, 0) && result1 == callres(Hijack, 0, 1) && result2 == callres(Hijack, 0, 2)
+//@   ensures flag_after_success: implements(b.responseWriter, "net/http.Hijacker") && callres(Hijack, 0, 2) == nil ==> b.hijacked
+//@   at_call Hijack flag_only_after_success: b.hijacked == old(b.hijacked)
+//@   ensures error_when_unsupported: !implements(b.responseWriter, "net/http.Hijacker") ==> calls(Hijack) == 0 && result2 != nil
+//@ func (*bufferWriter).Close
+//@   props C15
+//@   requires b != nil && b.buffer != nil
+//@   modifies b.buffer.taken, b.buffer.spilled
+//@   ensures spill_file_removed: !b.buffer.spilled
+//@ func (*bufferWriter).expectBody
+//@   props C07 C15
+//@   requires b != nil && r != nil
+//@   modifies nothing
+//@   ensures no_body_kinds: result <==> !(r.Method == "HEAD" || (b.code >= 100 && b.code < 200) || b.code == 204 || b.code == 304 || header(b.header, "Content-Length") == "0" || (header(b.header, "Grpc-Status") != "" && header(b.header, "Grpc-Status") != "0"))
+
+//@ extern io.NopCloser
+//@   params r
+//@   modifies nothing
+//@   nopanic
+//@   ensures wraps: result != nil
+
+// ---- the request handed to the wrapped handler (C06) -----------------------------------------------------------------------------
+//@ type Buffer
+//@   immutable maxRequestBodyBytes memRequestBodyBytes maxResponseBodyBytes memResponseBodyBytes retryPredicate errHandler verbose log
+//@   setup Wrap
+
+//@ func (*Buffer).checkLimit
+//@   props C15
+//@   requires b != nil && req != nil
+//@   modifies nothing
+//@   ensures declared_length_over_the_maximum: (result != nil) <==> (b.maxRequestBodyBytes > 0 && req.ContentLength > b.maxRequestBodyBytes)
+//@   ensures result != nil ==> istype(result, "*multibuf.MaxSizeReachedError")
+
+//@ func (*Buffer).copyRequest
+//@   props C06
+//@   requires b != nil && req != nil && req.URL != nil
+//@   modifies nothing
+//@   ensures fresh_request: result != nil && fresh(result) && result != req
+//@   ensures fresh_url_and_headers: result.URL != nil && fresh(result.URL) && result.Header != nil && fresh(result.Header)
+//@   ensures same_method_and_target: result.Method == req.Method && result.URL.Path == req.URL.Path && result.URL.RawPath == req.URL.RawPath && result.URL.RawQuery == req.URL.RawQuery && result.URL.Scheme == req.URL.Scheme && result.URL.Host == req.URL.Host && result.Host == req.Host && result.RequestURI == req.RequestURI
+//@   ensures same_header_values: forall k string :: header(result.Header, k) == header(req.Header, k)
+//@   ensures true_length_no_chunking: result.ContentLength == bodySize && len(result.TransferEncoding) == 0
+//@   ensures callers_request_untouched: req.URL == old(req.URL) && req.Header == old(req.Header) && req.ContentLength == old(req.ContentLength)
+
+// ---- the limiter's own refusal -------------------------------------------------------------------------------------------------------
+//@ func (*SizeErrHandler).ServeHTTP
+//@   props C15 C20
+//@   requires w != nil
+//@   modifies external
+//@   ensures too_large_is_413: istype(err, "*multibuf.MaxSizeReachedError") ==> calls(w.WriteHeader) == 1 && callarg(w.WriteHeader, 0, 0) == 413 && calls(w.Write) == 1 && before(w.WriteHeader, w.Write)
+//@   ensures other_errors_delegated: !istype(err, "*multibuf.MaxSizeReachedError") ==> calls(w.WriteHeader) == 0 && calls(DefaultHandler.ServeHTTP) == 1
+
+// ---- Buffer.ServeHTTP -------------------------------------------------------------------------------------------------------------
+// The retry loop is cut at its head; facts about "this attempt" are at_call clauses (evaluated in the iteration that makes
+// the call), facts about the whole exchange are postconditions over calls that only the last iteration makes (obligations
+// loop1:calllog:*). Deferred calls registered by earlier iterations run at exit like the last iteration's (Go semantics); each
+// establishes its postcondition on objects that iteration created.
+//@ func (*Buffer).ServeHTTP
+//@   props C06 C07 C15 C20
+//@   requires b != nil && w != nil && req != nil && req.URL != nil && b.next != nil && b.errHandler != nil
+//@   requires heap_typing: allocated(req.Header) && allocated(req.URL) && (forall k string :: allocated(backing(req.Header[k])))
+//@   modifies everything
+//@   ensures {C07,C20} at_most_one_response: calls(w.WriteHeader) + calls(b.errHandler.ServeHTTP) <= 1
+//@   ensures {C07,C20} headers_then_status_then_body: calls(w.WriteHeader) == 1 ==> calls(CopyHeaders) == 1 && before(CopyHeaders, w.WriteHeader) && calls(Copy) <= 1 && before(w.WriteHeader, Copy)
+//@   ensures {C15,C20} refusal_is_the_handlers: calls(b.errHandler.ServeHTTP) == 1 ==> calls(w.WriteHeader) == 0 && calls(Copy) == 0 && callarg(b.errHandler.ServeHTTP, 0, 0) == w && callarg(b.errHandler.ServeHTTP, 0, 1) == req
+//@   ensures {C15} declared_over_limit_refused: b.maxRequestBodyBytes > 0 && old(req.ContentLength) > b.maxRequestBodyBytes ==> calls(b.errHandler.ServeHTTP) == 1 && istype(callarg(b.errHandler.ServeHTTP, 0, 2), "*multibuf.MaxSizeReachedError")
+//@   after_call b.next.ServeHTTP callers_request_is_not_the_handlers: req.URL == old(req.URL) && req.ContentLength == old(req.ContentLength) && req.Method == old(req.Method) && req.Header == old(req.Header) && (forall k string :: header(req.Header, k) == old(header(req.Header, k)))
+//@   ensures {C15} spill_file_of_this_attempt_removed: !bw.buffer.spilled
+//@   ensures_panic {C15} spill_file_of_this_attempt_removed: !bw.buffer.spilled
+//@   ensures {C15} reader_of_this_attempt_closed: rdr != nil ==> !rdr.owns
+//@   at_call b.next.ServeHTTP {C15} within_declared_limit: !(b.maxRequestBodyBytes > 0 && req.ContentLength > b.maxRequestBodyBytes)
+//@   at_call b.next.ServeHTTP {C06} fresh_copy: arg1 != req && fresh(arg1) && fresh(arg1.URL) && fresh(arg1.Header)
+//@   at_call b.next.ServeHTTP {C06} true_length_no_chunking: arg1.ContentLength == totalSize && len(arg1.TransferEncoding) == 0
+//@   at_call b.next.ServeHTTP {C06} same_method_and_headers: arg1.Method == req.Method && (forall k string :: header(arg1.Header, k) == header(req.Header, k))
+//@   at_call b.next.ServeHTTP {C06} body_from_the_first_byte: body == nil || body.pos == 0
+//@   at_call b.next.ServeHTTP {C07} bounded_attempts: 1 <= attempt && attempt <= 11
+//@   at_call b.next.ServeHTTP {C07,C20} fresh_capture_writer: istype(arg0, "*bufferWriter") && fresh(payload(arg0)) && asref(payload(arg0), "*bufferWriter").code == 0 && !asref(payload(arg0), "*bufferWriter").hijacked
+//@   at_call b.retryPredicate {C07} decided_on_this_attempt: arg0.attempt == attempt && arg0.responseCode == bw.code && arg0.r == req
+//@   at_call w.WriteHeader {C07} implicit_200: arg0 == ite(bw.code == 0, 200, bw.code)
+//@   at_call w.WriteHeader {C07} final_attempt: b.retryPredicate == nil || attempt > 10 || !callres(b.retryPredicate, 0, 0)
+//@   at_call w.WriteHeader {C07} headers_of_this_attempt: callarg(CopyHeaders, 0, 1) == bw.header
+//@   at_call w.WriteHeader {C15} nothing_of_an_over_limit_response: bw.writeError == nil && !bw.hijacked
+//@   loop 1 invariant 1 <= attempt && attempt <= 11
+//@   loop 1 invariant req.URL == old(req.URL) && req.ContentLength == old(req.ContentLength) && req.Method == old(req.Method) && req.Header == old(req.Header) && (forall k string :: header(req.Header, k) == old(header(req.Header, k)))
+//@   loop 1 invariant body == nil || body.pos == 0
+//@   loop 1 invariant outReq != nil && outReq != req && fresh(outReq) && outReq.ContentLength == totalSize && len(outReq.TransferEncoding) == 0 && outReq.Method == req.Method && fresh(outReq.URL) && fresh(outReq.Header) && (forall k string :: header(outReq.Header, k) == header(req.Header, k))
+//@   loop 1 invariant !(b.maxRequestBodyBytes > 0 && req.ContentLength > b.maxRequestBodyBytes)
